@@ -100,12 +100,28 @@ class SSeq(Sym):
 
 
 class Cell:
-    """mutable sequence object with identity (list / bytearray / deque) whose content is an SSeq"""
+    """mutable sequence object with identity (list / bytearray / deque) whose content is an SSeq.
+    A cell handed to an ABSTRACT container (which only remembers facts about the content at that moment) is `sealed`:
+    a later in-place change of it would silently invalidate the abstraction, so it is recorded in MUTATED_SEALED and the
+    contracts that use such containers turn that into a failed obligation."""
+    MUTATED_SEALED = []
+
     def __init__(self, v, pycls=list):
         assert isinstance(v, SSeq)
-        self.v = v
+        self.sealed = None
+        self._v = v
         self.pycls = pycls
-        self.v.pycls = pycls
+        self._v.pycls = pycls
+
+    @property
+    def v(self):
+        return self._v
+
+    @v.setter
+    def v(self, nv):
+        if self.sealed is not None:
+            Cell.MUTATED_SEALED.append((self.sealed, self))
+        self._v = nv
 
     def __repr__(self):
         return 'Cell<%s>(%s)' % (self.pycls.__name__, self.v.e)
